@@ -122,15 +122,16 @@ def run_history(ops, out, stats, check_values=True, rng=None, n_ops=0):
     close_all()
     live = W.Live("M")
     nontrivial = False
+    focus = (2 if rng.random() < 0.4 else None) if rng is not None else None
     if rng is not None and not ops:
-        ops += [["set_mref", "u", 11], ["set_mref", "r", 12]]
+        ops += [["set_mref", "u", 11], ["set_mref", "r", 12]] + S.motif(rng)
     try:
         k = 0
         while True:
             if k >= len(ops):
                 if rng is None or k >= n_ops:
                     break
-                ops.append(S.gen_next(rng, live, CFG))
+                ops.append(S.gen_next(rng, live, CFG, ops, focus=focus))
             op = ops[k]
             k += 1
             if op[0] == "evalall":
